@@ -42,6 +42,7 @@ type c11P struct {
 	// Restart: the Subscriber is stopped and started again (same object, verifier registered before) before any
 	// message is published; the registered verifier must keep deciding
 	Restart bool `json:"restart,omitempty"`
+	Metrics bool `json:"metrics,omitempty"` // the Subscriber is built WithSubscriberMetrics
 }
 
 var (
@@ -71,6 +72,10 @@ func TestC11(t *testing.T) {
 			mon.Emit(r, "gossip", c11P{Msgs: ms[:n:n], Verifier: "set"}, "gossip")
 			ms = ms[n:]
 		}
+	}
+	// a Subscriber with metrics switched on decides the same way (first message included)
+	for _, first := range []c11Msg{{Payload: "valid", Verdict: "nil"}, {Payload: "valid", Verdict: "soft"}, {Payload: "garbage", Verdict: "nil"}, {Payload: "valid", Verdict: "nil", Via: "local"}} {
+		mon.Emit(r, "gossip", c11P{Msgs: []c11Msg{first, {Payload: "valid", Verdict: "nil"}, {Payload: "valid", Verdict: "hard"}, {Payload: "invalid-fields", Verdict: "nil"}}, Verifier: "set", Metrics: true}, "gossip")
 	}
 	// Stop + Start of the same Subscriber: the verifier registered before keeps deciding
 	for rep := 0; rep < r.N(1, 20); rep++ {
@@ -172,7 +177,11 @@ func c11Run(c *mon.Case, p c11P) {
 		psA, psB, psC := mk(0), mk(1, pubsub.WithRawTracer(tracer)), mk(2)
 		topicID := p2p.PubsubTopicID(simnet.NetworkID)
 
-		sub, err := p2p.NewSubscriber[H](psB, msgID, p2p.WithSubscriberNetworkID(simnet.NetworkID))
+		subOpts := []p2p.SubscriberOption{p2p.WithSubscriberNetworkID(simnet.NetworkID)}
+		if p.Metrics {
+			subOpts = append(subOpts, p2p.WithSubscriberMetrics())
+		}
+		sub, err := p2p.NewSubscriber[H](psB, msgID, subOpts...)
 		if err != nil {
 			c.T.Fatalf("subscriber: %v", err)
 		}
@@ -429,7 +438,7 @@ func c11Run(c *mon.Case, p c11P) {
 			}
 		}
 		sort.Strings(classes)
-		c.Class("verifier=%s restart=%v %s", p.Verifier, p.Restart, strings.Join(classes, " "))
+		c.Class("verifier=%s restart=%v metrics=%v %s", p.Verifier, p.Restart, p.Metrics, strings.Join(classes, " "))
 
 		// teardown
 		pscancel()
